@@ -207,6 +207,16 @@ def saves_and_monitors(ctx, rng, idx):
     t1, _, _ = _traj(S.solve, s.field, cfl, tsave, stop={"maxit": N, "tottime": times[-1] * 2 + 1e9}, directives=dict(dirs))
     ok = len(t1) == len(base) and all(_same(a, b) for a, b in zip(base, t1))
     ctx.true("extra-saves", ok, "saves/trajectory-changed-by-save-times/" + who, {"first differing iteration": next((k for k, (a, b) in enumerate(zip(base, t1)) if not _same(a, b)), None), "tsave": tsave}, cls="extra-saves")
+    # (d') the caller's own argument objects reused between calls: ONE stop dictionary (and one directives dictionary) handed first
+    # to a short run with an early last save time, then to the run under test -- same trajectory as with fresh literals, and the
+    # dictionaries still hold what the caller wrote
+    stopd = {"maxit": N}; dird = dict(dirs)
+    early = [times[0] + 0.4 * (times[1] - times[0])]
+    make().solve(s.field, cfl, early, stop=stopd, directives=dird)
+    tr, _, _ = _traj(make().solve, s.field, cfl, tsave + [times[-1] * 2 + 1e9], stop=stopd, directives=dird)
+    ok = len(tr) == len(base) and all(_same(a, b) for a, b in zip(base, tr))
+    ctx.true("reused-arguments", ok, "saves/trajectory-changed-by-reusing-the-stop-dictionary-of-an-earlier-call/" + who, {"stop dictionary now": dict(stopd), "iterations": len(tr) - 1, "expected": len(base) - 1}, cls="extra-saves")
+    ctx.true("reused-arguments", stopd == {"maxit": N} and dird == dict(dirs), "saves/caller-dictionaries-modified-by-solve", {"stop": dict(stopd), "directives": dict(dird)}, cls="extra-saves")
     # (e) monitors attached
     S2 = make()
     t2, _, log2 = _traj(S2.solve, s.field, cfl, stop={"maxit": N}, monitors=mons, directives=dict(dirs))
